@@ -456,8 +456,8 @@ def rule_r5(prog, res) -> None:
         S = summaries(prog)
         sites = []
         for f in S.reachable(m):
-            if f is not m and f.cls is not ci and f.parent is not m:
-                continue
+            if f is not m and not (f.cls is not None and f.cls in prog.mro(ci)) and f.parent is not m:
+                continue  # (methods of the reader and of its base classes build the chunk; other classes' code is not counted)
             for c in calls_in(f):
                 if create in prog.resolve_call(f, c).funcs():
                     sites.append((f, c))
